@@ -363,10 +363,13 @@ def run_unit(u, tier, seed):
                            "archive is indexed", "%s: %s" % (type(e).__name__, e))
             part.evaluations += 1
             return part
-        for sig, exp, obs in r.meta():
+        metabad = r.meta()
+        for sig, exp, obs in metabad:
             part.violation(sig, dict(base, start=None, history=[]), exp, obs)
         r.close()
         part.evaluations += 1
+        if metabad:
+            return part          # the member list itself is wrong: cursor exploration would only repeat that
         if n == 0:
             part.states += 1
             part.outcomes["empty-archive"] += 1
